@@ -17,4 +17,8 @@ def obligations(tier):
                       timeout=1800, mem=8, nochecks=True, tier="quick" if n == 2 else "thorough", replay="model", family="sodium_init",
                       desc="all interleavings of N threads in sodium_init: once-only, return codes, no early return, final state visible",
                       bounds="N=%d threads, all interleavings, SC" % n))
+    obs.append(Ob("init-2threads-twice", "C19/init.c", units=["sodium/core.c"], defs={"NTHREADS": 2, "TWICE": 1}, unwind=12,
+                  timeout=1800, mem=8, nochecks=True, replay="model", family="sodium_init",
+                  desc="as above, each thread calling sodium_init twice: the second call returns 1, still once-only",
+                  bounds="2 threads x 2 calls, all interleavings, SC"))
     return obs
